@@ -2,6 +2,7 @@ import CwMt.Proofs.Engine
 import CwMt.Proofs.Prefix
 import CwMt.Proofs.Layout
 import CwMt.Proofs.Flat
+import CwMt.Proofs.FlatChain
 /-
   C08 — Each contract's storage is private to it and is all it can touch.
   Two layers: (1) at the byte level, the raw key spaces of different contracts and of the other
@@ -185,5 +186,18 @@ theorem flat_foreign_write (raw : Store Val) (q r pc : Key) (v : Val) (hq : q <+
   | true =>
     obtain ⟨t, ht⟩ := Prefix.hasPrefix_iff.1 h
     exact (hd r hq ⟨t, ht.symm⟩).elim
+
+/-! ### the flat store computed by the model (`Flat.flatten`, compared byte for byte with the real root storage by `rawdump`) -/
+
+/-- what the root storage holds under a contract's storage key `00 04 wasm len(contract_data/‖a) contract_data/ a ‖ k` is what that
+contract's own store holds under `k` — for every key `k`, whatever its bytes — and nothing when the contract has no store -/
+theorem flat_store_contract_entry (ch : Chain E) (wf : Flat.FlatWF ch) (a : Addr) (k : Key) (ha : (Flat.utf8 a).length ≤ 65521) :
+    (Flat.flatten ch).get (Flat.storeKey a k) = (ch.cstore.get? a).bind (·.get k) :=
+  Flat.flatten_store ch wf a k ha
+
+/-- the key of one contract's entry is never the key of another contract's entry, of a balance or of a registry record -/
+theorem flat_keys_disjoint (a b : Addr) (k k' : Key) (ha : (Flat.utf8 a).length ≤ 65521) (hb : (Flat.utf8 b).length ≤ 65521) :
+    (Flat.storeKey a k = Flat.storeKey b k' → a = b ∧ k = k') ∧ Flat.bankKey b ≠ Flat.storeKey a k ∧ Flat.contractKey b ≠ Flat.storeKey a k :=
+  ⟨Flat.storeKey_inj ha hb, Flat.bankKey_ne_storeKey b a k, Flat.contractKey_ne_storeKey b a k ha⟩
 
 end CwMt.C08
